@@ -352,7 +352,106 @@ theorem outputs_inside_tabulation (interp : Bool) (start stop : Int) (rs ds rest
     start ≤ d ∧ d ≤ lastD start ds ∧ Incr start ds :=
   ⟨h1, le_trans h2 ((march_reaches_stop_and_pads _ _ _ _ _ _ _ _ h).1 rfl), marchWith_incr _ rs 1 start ds rest hpos h⟩
 
+/-! ## The object graph of an output: every point carries its own propagator -/
+
+/-- **every point yielded by `_iter` (hence every orbit returned by `iter()`, `ephem()`, `propagate()`) carries its OWN
+propagator object**: the propagators of one output are pairwise distinct and none is the receiver's -/
+theorem output_props_distinct (recv next n : Nat) (h : recv < next) :
+    (outputProps recv next n).Nodup ∧ recv ∉ outputProps recv next n := by
+  unfold outputProps pointPropId
+  constructor
+  · apply List.Nodup.map_on _ List.nodup_range
+    intro a _ b _ hab; omega
+  · simp only [List.mem_map, List.mem_range, not_exists, not_and]
+    intro k _; omega
+
+/-- the `k`-th point's propagator lies in the block of identities allocated for that output -/
+theorem output_props_range (recv next n : Nat) : ∀ p ∈ outputProps recv next n, next ≤ p ∧ p < next + propsAllocated n := by
+  unfold outputProps pointPropId propsAllocated
+  simp only [List.mem_map, List.mem_range]
+  rintro p ⟨k, hk, rfl⟩; omega
+
+/-- **across outputs**: the propagators of all points of successive outputs of one receiver are pairwise distinct (a point of
+one `iter()` call never shares its propagator with a point of another call, nor with a `propagate()` result) -/
+theorem outputs_props_distinct (recv : Nat) : ∀ (ns : List Nat) (next : Nat), recv < next →
+    (outputsProps recv next ns).flatten.Nodup ∧ recv ∉ (outputsProps recv next ns).flatten ∧
+    ∀ p ∈ (outputsProps recv next ns).flatten, next ≤ p := by
+  intro ns
+  induction ns with
+  | nil => intro next _; simp [outputsProps]
+  | cons n ns ih =>
+    intro next h
+    obtain ⟨h1, h2, h3⟩ := ih (next + propsAllocated n) (by omega)
+    obtain ⟨g1, g2⟩ := output_props_distinct recv next n h
+    have g3 := output_props_range recv next n
+    simp only [outputsProps, List.flatten_cons]
+    refine ⟨?_, ?_, ?_⟩
+    · rw [List.nodup_append]
+      refine ⟨g1, h1, ?_⟩
+      intro a ha b hb hab
+      have := (g3 a ha).2
+      have := h3 b hb
+      omega
+    · simp only [List.mem_append, not_or]; exact ⟨g2, h2⟩
+    · intro p hp
+      rcases List.mem_append.mp hp with hp | hp
+      · exact (g3 p hp).1
+      · have := h3 p hp; omega
+
+/-- invariant of `runReqs` when the orbits' propagators are distinct objects: an orbit whose iterator exists is still the one
+its propagator is bound to -/
+theorem runReqs_own (pOf : Nat → Nat) (hinj : ∀ i j, pOf i = pOf j → i = j) :
+    ∀ (rs : List Req) (made : List Nat) (b : Nat → Option Nat), (∀ i ∈ made, b (pOf i) = some i) →
+      wellFormed made rs = true → runReqs pOf b rs = ownReplies rs := by
+  intro rs
+  induction rs with
+  | nil => intros; rfl
+  | cons r rs ih =>
+    intro made b hb hw
+    cases r with
+    | create i =>
+      simp only [runReqs, ownReplies, wellFormed] at hw ⊢
+      apply ih (i :: made) _ _ hw
+      intro j hj
+      by_cases hji : pOf j = pOf i
+      · have := hinj j i hji; subst this; simp
+      · rcases List.mem_cons.mp hj with rfl | hj
+        · exact absurd rfl hji
+        · simp [hji, hb j hj]
+    | consume i =>
+      simp only [runReqs, ownReplies, wellFormed, Bool.and_eq_true, List.contains_iff_mem] at hw ⊢
+      rw [hb i hw.1, ih made b hb hw.2]
+    | propagate i =>
+      simp only [runReqs, ownReplies, wellFormed] at hw ⊢
+      congr 1
+      apply ih made _ _ hw
+      intro j hj
+      by_cases hji : pOf j = pOf i
+      · have := hinj j i hji; subst this; simp
+      · simp [hji, hb j hj]
+
+/-- **interleaved requests on the points of one output do not interfere**: with the propagators handed out by `_iter`
+(`pointPropId`), whatever the order in which iterators of sibling points are created and consumed and `propagate()` calls are
+made in between, every request returns the trajectory of its own orbit — the state returned for a date does not depend on how
+requests on different orbits are interleaved -/
+theorem sibling_requests_independent (recv next : Nat) (rs : List Req) (hw : wellFormed [] rs = true) :
+    runReqs (pointPropId recv next) (fun _ => none) rs = ownReplies rs := by
+  apply runReqs_own _ _ rs [] _ (by simp) hw
+  intro i j h
+  unfold pointPropId at h
+  omega
+
 /-! ## Non-vacuity -/
+
+/-- three points, their propagators are objects 5, 6, 7, the receiver is object 2 -/
+example : outputProps 2 5 3 = [5, 6, 7] := by decide
+/-- `zip(A.iter(), B.iter())`, and an iterator of A created before a `propagate()` of B and consumed after -/
+example : wellFormed [] [.create 0, .create 1, .consume 0, .consume 1] = true ∧
+    wellFormed [] [.create 0, .propagate 1, .consume 0] = true := by decide
+/-- with ONE propagator shared by the siblings the second history returns B's trajectory for A: the hypothesis of
+`runReqs_own` is what excludes it -/
+example : runReqs (fun _ => 7) (fun _ => none) [.create 0, .propagate 1, .consume 0] = [some 1, some 1] := by decide
+
 
 /-- Euler, then `prop.method = "rk4"`, then a step: an RK4 step -/
 example (c : Cfg) (y : List ℝ) (h : ℝ) :
